@@ -193,3 +193,12 @@ type ExperimentalFeature struct {
 func (e ExperimentalFeature) Error() string {
 	return fmt.Sprintf("this feature is experimental. You need the '%s' feature flag to enable it", e.FlagName)
 }
+
+type DivideByZero struct {
+	parser.Range
+	Numerator *big.Int
+}
+
+func (e DivideByZero) Error() string {
+	return fmt.Sprintf("cannot divide by zero (in %s/0)", e.Numerator.String())
+}
